@@ -444,6 +444,8 @@ pub fn c17_gaps(case: &Case, seed: u64) -> (Vec<Failure>, bool) {
     }
     let idx = case.ops.len();
     match recover(&renamed, &d.names, d.world.policy, &case.knobs) {
+        // at the very top of the number range recovery's own GC may need a new file and there is none left
+        Err((crate::world::OpenFail::Io(_), _)) if at_top => {}
         Err((e, _)) => out.push(fail("C17", "gaps-open-failed", idx, format!("WAL files renumbered {:?} -> {:?} (order preserved): {}", numbers, map.values().collect::<Vec<_>>(), crate::crash::open_fail_text(&e)))),
         Ok((w, obs)) => {
             let want = d.model.to_obs();
